@@ -730,6 +730,8 @@ func typeAssert(i *interpreter, instr *ssa.TypeAssert, itf iface) value {
 		err = checkInterface(i, idst, itf)
 	} else if types.Identical(itf.t, instr.AssertedType) {
 		v = itf.v // extract value
+	} else if instr.CommaOk {
+		err = "mismatch"
 	} else {
 		err = fmt.Sprintf("interface conversion: interface is %s, not %s", itf.t, instr.AssertedType)
 	}
@@ -896,12 +898,7 @@ func (i *interpreter) indexRead(seq []value, idx value, what string) value {
 		tc := i.px.tc
 		w := kindWidth(s.k)
 		n := len(seq)
-		var inRange *Term
-		if kindSigned(s.k) {
-			inRange = tc.And(tc.bvcmp(OBvSle, tc.BV(w, 0), s.t), tc.bvcmp(OBvSlt, s.t, tc.BV(w, uint64(n))))
-		} else {
-			inRange = tc.bvcmp(OBvUlt, s.t, tc.BV(w, uint64(n)))
-		}
+		inRange := i.inRangeTerm(s, n)
 		if !i.px.branch(inRange) {
 			rtPanic("index out of range [symbolic] with length %d", n)
 		}
@@ -938,6 +935,23 @@ func (i *interpreter) indexRead(seq []value, idx value, what string) value {
 	return seq[j]
 }
 
+// inRangeTerm builds 0 <= s < n for an index of any integer kind (n may exceed the kind's range).
+func (i *interpreter) inRangeTerm(s sym, n int) *Term {
+	tc := i.px.tc
+	w := kindWidth(s.k)
+	if kindSigned(s.k) {
+		lo := tc.bvcmp(OBvSle, tc.BV(w, 0), s.t)
+		if w < 64 && uint64(n) >= uint64(1)<<uint(w-1) {
+			return lo
+		}
+		return tc.And(lo, tc.bvcmp(OBvSlt, s.t, tc.BV(w, uint64(n))))
+	}
+	if w < 64 && uint64(n) >= uint64(1)<<uint(w) {
+		return tc.Bool(true)
+	}
+	return tc.bvcmp(OBvUlt, s.t, tc.BV(w, uint64(n)))
+}
+
 func (i *interpreter) indexAddr(seq []value, idx value) *value {
 	j := i.concIndex(idx, len(seq))
 	return &seq[j]
@@ -946,14 +960,7 @@ func (i *interpreter) indexAddr(seq []value, idx value) *value {
 // concIndex concretizes an index, raising the bounds panic on the out-of-range side.
 func (i *interpreter) concIndex(idx value, n int) int64 {
 	if s, ok := idx.(sym); ok {
-		tc := i.px.tc
-		w := kindWidth(s.k)
-		var inRange *Term
-		if kindSigned(s.k) {
-			inRange = tc.And(tc.bvcmp(OBvSle, tc.BV(w, 0), s.t), tc.bvcmp(OBvSlt, s.t, tc.BV(w, uint64(n))))
-		} else {
-			inRange = tc.bvcmp(OBvUlt, s.t, tc.BV(w, uint64(n)))
-		}
+		inRange := i.inRangeTerm(s, n)
 		if !i.px.branch(inRange) {
 			rtPanic("index out of range [symbolic] with length %d", n)
 		}
